@@ -136,6 +136,7 @@ def _sync(ctx):
     ctx.require({'unlink', 'missing', 'existing'} <= set(seen),
                 'unlink / fetch / existing loops of _synchronize',
                     rule='C12.1')
+    _one_shot_domains(ctx, func)
     # every element of each domain is acted on: no iteration of the three
     # loops ends before its unlink / _cache call (an entry passed over
     # because "the instance is running" keeps a stale identity and expiry)
@@ -234,11 +235,67 @@ def _owner(ctx):
     ctx.require(n >= 1, 'direct file creations in eventmgr', rule='C12.2')
 
 
+def _failures_escape_write(ctx, func):
+    """C12.3: a write that failed is reported: no ``finally`` block of
+    write_safe ends in a return / break / continue (each of them discards
+    the exception in flight, and the caller goes on as if the file had been
+    written)."""
+    bad = []
+    blocks = 0
+    for sub in K.walk_no_nested(func.raw):
+        if isinstance(sub, ast.Try) and sub.finalbody:
+            blocks += 1
+            for st in sub.finalbody:
+                for leaf in ast.walk(st):
+                    if isinstance(leaf, (ast.Return, ast.Break,
+                                         ast.Continue)):
+                        bad.append(leaf)
+    ctx.ob('C12.3', func, bad[0] if bad else None, not bad,
+           'the clean-up of write_safe lets a failure through (no return / '
+           'break / continue inside its finally: %d block(s))' % blocks,
+           construct='finally does not swallow')
+
+
+def _one_shot_domains(ctx, func):
+    """C12.1: the three domains of a synchronisation are walked after they
+    were logged: a domain read more than once is a collection, not a
+    one-shot iterator (a generator expression is exhausted by the log line
+    in front of its loop, and the loop body never runs)."""
+    loads = {}
+    for sub in K.walk_no_nested(func.raw):
+        if isinstance(sub, ast.Name) and isinstance(sub.ctx, ast.Load):
+            loads[sub.id] = loads.get(sub.id, 0) + 1
+    judged = 0
+    for sub in K.walk_no_nested(func.raw):
+        if isinstance(sub, ast.For) and isinstance(sub.iter, ast.Name):
+            name = sub.iter.id
+            defs = [st.value for st in K.walk_no_nested(func.raw)
+                    if isinstance(st, ast.Assign) and any(
+                        isinstance(t, ast.Name) and t.id == name
+                        for t in st.targets)]
+            if not defs:
+                continue
+            judged += 1
+            lazy = [d for d in defs if isinstance(d, ast.GeneratorExp) or (
+                isinstance(d, ast.Call) and K.callee_text(d) in (
+                    'map', 'filter', 'iter', 'zip', 'six.moves.filter',
+                    'six.moves.map', 'itertools.filterfalse',
+                    'itertools.chain'))]
+            ok = not (lazy and loads.get(name, 0) > 1)
+            ctx.ob('C12.1', func, sub, ok,
+                   'the domain %s is a collection when it is read more than '
+                   'once (%d reads)' % (name, loads.get(name, 0)),
+                   construct='domain %s is not a one-shot iterator' % name)
+    ctx.require(judged >= 1, 'named domains walked by _synchronize (found '
+                '%d)' % judged, rule='C12.1')
+
+
 def _write_safe(ctx):
     index = ctx.index
     fs = index.module(FS)
     func = fs.functions.get('write_safe')
     ctx.require(func is not None, 'fs.write_safe')
+    _failures_escape_write(ctx, func)
     graph = ctx.cfg(func)
     dest = func.params()[0]
     cb = func.params()[1]
